@@ -16,7 +16,8 @@ import (
 )
 
 // Node is a logical SECS-II item. Kind: 'L' list, 'B' binary, 'O' boolean, 'A' ascii, 'J' jis8,
-// 'W' localized string, 'I' signed, 'U' unsigned, 'F' float (bit patterns), 'E' empty item.
+// 'W' localized string, 'I' signed, 'U' unsigned, 'F' float (bit patterns), 'E' empty item,
+// 'R' an item obtained from secs2.Decode(Bytes) (Kids[0] is its logical value) used as a child.
 type Node struct {
 	Kind  byte
 	W     int    // element width for I/U/F
@@ -103,6 +104,9 @@ func (n *Node) Count() int {
 
 // Depth is the list nesting depth (a leaf is 0).
 func (n *Node) Depth() int {
+	if n.Kind == 'R' {
+		return n.Kids[0].Depth()
+	}
 	if n.Kind != 'L' {
 		return 0
 	}
@@ -117,6 +121,9 @@ func (n *Node) Depth() int {
 
 // HasEmptyChild reports an EmptyItem below the root.
 func (n *Node) HasEmptyChild() bool {
+	if n.Kind == 'R' {
+		return false
+	}
 	for _, k := range n.Kids {
 		if k.Kind == 'E' || k.HasEmptyChild() {
 			return true
@@ -125,8 +132,24 @@ func (n *Node) HasEmptyChild() bool {
 	return false
 }
 
+// HasDecoded reports a decoded ('R') item anywhere in the tree.
+func (n *Node) HasDecoded() bool {
+	if n.Kind == 'R' {
+		return true
+	}
+	for _, k := range n.Kids {
+		if k.HasDecoded() {
+			return true
+		}
+	}
+	return false
+}
+
 // Nodes counts the nodes of the tree.
 func (n *Node) Nodes() int {
+	if n.Kind == 'R' {
+		return 1
+	}
 	c := 1
 	for _, k := range n.Kids {
 		c += k.Nodes()
@@ -143,6 +166,9 @@ func (n *Node) Spec(sb *strings.Builder) {
 	switch n.Kind {
 	case 'E':
 		sb.WriteString("E")
+		return
+	case 'R':
+		sb.WriteString("R:" + hex.EncodeToString(n.Bytes))
 		return
 	case 'L':
 		fmt.Fprintf(sb, "L%d", len(n.Kids))
@@ -384,6 +410,8 @@ func RefEncode(n *Node, out []byte) []byte {
 	}
 	switch n.Kind {
 	case 'E':
+	case 'R':
+		out = append(out, n.Bytes...)
 	case 'L':
 		hdr(0o00, len(n.Kids))
 		for _, k := range n.Kids {
